@@ -482,6 +482,35 @@ def main():
             ffc.append(c)
             ffm.append(m)
     fails = direct("public", pub) + direct("private", priv)
+    # the owner of a second private table edits what that table serves, in place; the public table and the first
+    # private table still serve the embedded entries
+    try:
+        priv2 = core.PeriodicTable("verif_c20_edited")
+        for mod_ in (covalent_radius, crystal_structure, magnetic_ff):
+            mod_.init(priv2)
+        xsf.init(priv2)
+        xsf.init_spectral_lines(priv2)
+        edits = []
+        for el in priv2:
+            cs = getattr(el, "crystal_structure", None)
+            if isinstance(cs, dict):
+                for k in list(cs):
+                    cs[k] = "edited" if isinstance(cs[k], str) else 99.0
+                cs["extra"] = 1
+                edits.append("verif_c20_edited.%s.crystal_structure[...] = ..." % el.symbol)
+            for k, v in list(getattr(getattr(el, "magnetic_ff", None), "items", dict)()):
+                for nm in ("M", "j0", "j2", "j4", "j6", "J"):
+                    if isinstance(getattr(v, nm, None), list):
+                        getattr(v, nm)[:] = [0.0] * len(getattr(v, nm))
+        before = {(f["signature"], f.get("key"), f.get("table")) for f in fails}
+        for f in direct("public", pub) + direct("private", priv):
+            if (f["signature"], f.get("key"), f.get("table")) not in before:
+                f["signature"] = f["signature"].replace("C20:", "C20:after-private-edit:", 1)
+                f["what"] = "[after every crystal_structure dictionary of another private table was edited in place] " + f["what"]
+                fails.append(f)
+    except Exception as e:  # noqa
+        fails.append(dict(signature="C20:after-private-edit:raises", what="editing a second private table raised %s: %s" % (type(e).__name__, e),
+                          table="public", kind="raises", key="edit"))
     try:
         import subprocess
         p2 = subprocess.run([sys.executable, os.path.abspath(__file__), TIER, "--private-first"], stdout=subprocess.PIPE,
